@@ -1,0 +1,42 @@
+//go:build verif
+
+package parse
+
+// Exports of unexported functions for the verification harness.
+
+// VerifItem is one scanned item.
+type VerifItem struct {
+	Typ int
+	Pos int
+	Val string
+}
+
+// VerifLex runs the scanner to completion over input (template mode, or
+// expression mode when exprMode is set) and returns the items it emitted.
+func VerifLex(name, input string, exprMode bool) []VerifItem {
+	var l *lexer
+	if exprMode {
+		l = lexExpr(name, input)
+	} else {
+		l = lex(name, input)
+	}
+	var items []VerifItem
+	for it := range l.items {
+		items = append(items, VerifItem{int(it.typ), int(it.pos), it.val})
+	}
+	return items
+}
+
+// VerifItemName returns the printable name of an item type code.
+func VerifItemName(typ int) string { return itemType(typ).String() }
+
+// VerifRawText exposes rawtext.
+func VerifRawText(s string, trimBefore, trimAfter bool) []byte {
+	return rawtext(s, trimBefore, trimAfter)
+}
+
+// VerifUnquote exposes unquoteString.
+func VerifUnquote(s string) (string, error) { return unquoteString(s) }
+
+// VerifQuote exposes quoteString.
+func VerifQuote(s string) string { return quoteString(s) }
